@@ -81,6 +81,10 @@ func TestC08Liveness(t *testing.T) {
 			fn := lab.NewFakeNet()
 			fn.Install(lb)
 			nb := len(cfg.Backends)
+			for i := 0; i < nb; i++ {
+				fn.SetFailStatus(lab.BackendHost(i), rapid.SampledFrom([]int{500, 500, 501, 502, 503, 504, 505, 599}).Draw(rt, "fail_status"))
+				fn.SetInterimStatus(lab.BackendHost(i), rapid.SampledFrom([]int{103, 103, 100, 102}).Draw(rt, "interim_status"))
+			}
 			behaviours := []lab.Behaviour{lab.Good, lab.Status5xx, lab.Status5xx, lab.Unreachable, lab.AbortBody, lab.Status4xx}
 			for i := 0; i < nb; i++ {
 				b := rapid.SampledFrom(behaviours).Draw(rt, "initial")
